@@ -398,12 +398,24 @@ func (e *Engine) registerStubs() {
 	lt("(time.Duration).String", func(r *Run, fr *Frame, cc *ssa.CallCommon, a []Value) Value {
 		return &StrV{opaque: UF("durstring", 64, a[0].(*Term))}
 	})
-	lt("(time.Time).UTC", func(r *Run, fr *Frame, cc *ssa.CallCommon, a []Value) Value { return a[0] })
+	// the Location pointer is kept (third slot): Go's == on time.Time compares it, Equal does not
+	lt("(time.Time).UTC", func(r *Run, fr *Frame, cc *ssa.CallCommon, a []Value) Value { return timeV(nsOf(a[0])) })
+	lt("(time.Time).In", func(r *Run, fr *Frame, cc *ssa.CallCommon, a []Value) Value {
+		if a[1].(*PtrV).obj == nil {
+			r.mustNot(True, "panic", lbl("time.In"), "time: missing Location in call to Time.In")
+		}
+		return StructV{BVu(0, 64), nsOf(a[0]), a[1]}
+	})
+	lt("time.FixedZone", func(r *Run, fr *Frame, cc *ssa.CallCommon, a []Value) Value {
+		// a new Location object per call (the real function caches only whole-hour offsets)
+		t := r.eng.prog.ImportedPackage("time").Type("Location").Type()
+		return &PtrV{obj: r.newObj(t, zeroValue(t), "location")}
+	})
 	lt("(time.Time).Sub", func(r *Run, fr *Frame, cc *ssa.CallCommon, a []Value) Value {
 		return sat64(Sub(nsOf(a[0]), nsOf(a[1])))
 	})
 	lt("(time.Time).Add", func(r *Run, fr *Frame, cc *ssa.CallCommon, a []Value) Value {
-		return timeV(Add(nsOf(a[0]), SExt(a[1].(*Term), TW)))
+		return StructV{BVu(0, 64), Add(nsOf(a[0]), SExt(a[1].(*Term), TW)), a[0].(StructV)[2]}
 	})
 	lt("(time.Time).After", func(r *Run, fr *Frame, cc *ssa.CallCommon, a []Value) Value { return SLt(nsOf(a[1]), nsOf(a[0])) })
 	lt("(time.Time).Before", func(r *Run, fr *Frame, cc *ssa.CallCommon, a []Value) Value { return SLt(nsOf(a[0]), nsOf(a[1])) })
